@@ -215,6 +215,7 @@ func (u *UnitGen) run() {
 
 	// entry state
 	u.top0 = u.get(st, "top", SInt)
+	u.spawned0 = u.get(st, "G:spawned", SInt)
 	u.assumeRaw(App(SBool, "<=", IntN(1), u.top0))
 	env := &Env{u: u, vars: map[string]Val{}, cur: st, old: nil, pkgPath: u.contract.Pkg, fr: fr}
 	for _, p := range fn.Params {
@@ -928,7 +929,9 @@ func (g *Gen) contractQuantifies(ct *Contract) bool {
 
 func terminalKind(k string) bool {
 	switch k {
-	case "ensures", "frame", "check":
+	case "ensures", "frame", "check", "lock":
+		// lock-discipline obligations are judged where they stand; the lock state itself is tracked
+		// concretely, so nothing that follows needs them as assumptions
 		return true
 	}
 	return strings.HasPrefix(k, "inv-pres")
